@@ -110,6 +110,32 @@ func init() {
 			vc.plainErrs = append(vc.plainErrs, r)
 			return []Term{r}, true
 		},
+		"errors.Join": func(fr *Frame, st *State, call ssa.CallInstruction, fn *ssa.Function, a []Term) ([]Term, bool) {
+			vc := fr.vc
+			n := int64(-1)
+			if sl, ok := call.Common().Args[0].(*ssa.Slice); ok && sl.Low == nil && sl.High == nil {
+				if al, ok := sl.X.(*ssa.Alloc); ok {
+					if at, ok := al.Type().Underlying().(*types.Pointer).Elem().Underlying().(*types.Array); ok {
+						n = at.Len()
+					}
+				}
+			}
+			if n < 0 || n > 6 {
+				return nil, false
+			}
+			errT := types.Universe.Lookup("error").Type()
+			var wraps []Term
+			var anyNonNil []Term
+			for i := int64(0); i < n; i++ {
+				e := vc.loadT(st, vc.elemAddr(vc.sptr(a[0]), IntLit(i)), errT)
+				wraps = append(wraps, e)
+				anyNonNil = append(anyNonNil, Not(Eq(e, "nilval")))
+			}
+			r := vc.sc.Fresh(fr.prefix+"joined", "Val")
+			vc.sc.Def(And(Eq(Not(Eq(r, "nilval")), Or(anyNonNil...)), Or(Eq(r, "nilval"), sx("vnn", r)), vc.notModuleErr(r)))
+			vc.wrapFacts = append(vc.wrapFacts, wrapFact{r: r, wraps: wraps})
+			return []Term{r}, true
+		},
 		"errors.Is": func(fr *Frame, st *State, call ssa.CallInstruction, fn *ssa.Function, a []Term) ([]Term, bool) {
 			fr.vc.Assumed["errors.Is/As: uninterpreted chain predicates with wrap facts for fmt.Errorf(%w) and errors.New"] = true
 			return []Term{fr.vc.isErrTerm(a[0], a[1])}, true
@@ -132,6 +158,12 @@ func init() {
 			found := vc.asErrTerm(pt, a[0])
 			ok1 := vc.sc.Fresh(fr.prefix+"as_ok", "Bool")
 			vc.sc.Def(Eq(ok1, Not(Eq(found, vc.zeroOf(pt)))))
+			if vc.contractErrs[a[0]] && isModuleType(pt) {
+				// errors handed out by contracted module functions carry a module error type in
+				// their chain only as their own dynamic type (assumption, listed)
+				vc.Assumed["errors returned by contracted module functions do not wrap module error types (errors.As finds only the error itself)"] = true
+				vc.sc.Assume(st.reach, Implies(ok1, Eq(sx("typeOf", a[0]), vc.tyID(pt))))
+			}
 			// *target = found when ok
 			cur := vc.loadT(st, ptrTerm, pt)
 			vc.storeT(st, ptrTerm, pt, Ite(ok1, found, cur))
@@ -140,7 +172,7 @@ func init() {
 		"fmt.Errorf": func(fr *Frame, st *State, call ssa.CallInstruction, fn *ssa.Function, a []Term) ([]Term, bool) {
 			vc := fr.vc
 			r := vc.sc.Fresh(fr.prefix+"errorf", "Val")
-			vc.sc.Def(And(Not(Eq(r, "nilval")), sx("vnn", r)))
+			vc.sc.Def(And(Not(Eq(r, "nilval")), sx("vnn", r), vc.notModuleErr(r)))
 			var wraps []Term
 			if c, ok := call.Common().Args[0].(*ssa.Const); ok && c.Value != nil && c.Value.Kind() == constant.String {
 				format := constant.StringVal(c.Value)
@@ -227,7 +259,7 @@ func init() {
 			r := vc.sc.Fresh(fr.prefix+"decoded", "Slice")
 			vc.sc.Def(And(Eq(r, vc.mkSlice(base, sx("str.len", content), sx("str.len", content))), Eq(sx("bstr", r), content)))
 			e := vc.sc.Fresh(fr.prefix+"b64err", "Val")
-			vc.sc.Assume(st.reach, Or(Eq(e, "nilval"), sx("vnn", e)))
+			vc.sc.Assume(st.reach, And(Or(Eq(e, "nilval"), sx("vnn", e)), vc.notModuleErr(e)))
 			return []Term{r, e}, true
 		},
 		"encoding/json.Unmarshal": func(fr *Frame, st *State, call ssa.CallInstruction, fn *ssa.Function, a []Term) ([]Term, bool) {
@@ -344,7 +376,7 @@ func (fr *Frame) decodeInto(st *State, call ssa.CallInstruction, argIdx int, a [
 		vc.Abstracted["decode into value of statically unknown type (abstract state havoced)"] = true
 	}
 	r := vc.sc.Fresh(fr.prefix+"decerr", "Val")
-	vc.sc.Assume(st.reach, Or(Eq(r, "nilval"), sx("vnn", r)))
+	vc.sc.Assume(st.reach, And(Or(Eq(r, "nilval"), sx("vnn", r)), vc.notModuleErr(r)))
 	return []Term{r}
 }
 
